@@ -314,7 +314,7 @@ func c09dirTemplates(c *h.Ctx, idx int, fromSub bool) {
 }
 
 func c09(c *h.Ctx) {
-	c.Rule = "CLI with a controlled parent environment and empty $HOME: every non-empty subset of the six levels (63, stage runs) and of the five levels (31, direct runs) defines its own name, each under value assignments ascending / descending / seeded-shuffled with level (so the winner sorts above and below the losers); dir: every subset of {stage, task ({{.Root}} form and literal), context} x started in the project root / in a sub-directory, pwd in before, each command and after. non-trivial = every distinct (name, subset, winner value) / dir combination"
+	c.Rule = "CLI with a controlled parent environment and empty $HOME: every non-empty subset of the six levels (63, stage runs) and of the five levels (31, direct runs) defines its own name, each under value assignments ascending / descending / seeded-shuffled with level (so the winner sorts above and below the losers); dir: every subset of {stage, task ({{.Root}} form and literal), context} x started in the project root / in a sub-directory, pwd in before, each command and after. several tasks (some defining nothing) run directly and as parallel / chained stages of one pipeline in ONE process, names from the parent environment and from the configuration, every execution compared with the levels that apply to it. non-trivial = every distinct (name, subset, winner value) / dir combination / multi-task configuration"
 	c.Assumptions = []string{"names defined only by taskctl itself (ARGS, *_OUTPUT) are not examined", "paths are compared after EvalSymlinks"}
 	c.Exhaustive = true
 	c.Extra("exhaustive_subspace", "63 + 31 level subsets x {asc, desc, shuffled}; 8 dir subsets x 2 task-dir forms x 2 start directories x {staged, direct}")
@@ -355,6 +355,10 @@ func c09(c *h.Ctx) {
 		}
 	}
 	jobs = append(jobs, func() { c09dirTemplates(c, 0, false) }, func() { c09dirTemplates(c, 1, true) })
+	for m := 0; m < c.N(60, 1500); m++ {
+		m := m
+		jobs = append(jobs, func() { c09multi(c, m, h.NewRand(c.Seed*7919+int64(m), "c09multi")) })
+	}
 	h.Par(len(jobs), 16, func(i int) { jobs[i]() })
 }
 
